@@ -162,7 +162,7 @@ def program(spec: EnumSpec, pname, tier):
                           should_panic=True, kind="symbolic", desc="reading table[%s] (disabled variant) must panic" % v.ident,
                           bound={}, functions=fns))
         hs.append(Harness(name="h_disabled_index_mut_%s" % v.ident.lower(),
-                          body="    let mut t = %s::filled(7u8);\n    t[%s::%s] = nd_u8();" % (T, E, v.ident),
+                          body="    let mut t = %s::filled(7u8);\n    t[%s::%s] = 9u8;   // no free variable: the native replay of a missing panic needs no values" % (T, E, v.ident),
                           should_panic=True, kind="symbolic", desc="writing table[%s] (disabled variant) must panic" % v.ident,
                           bound={}, functions=fns))
     # public signatures the property fixes: one constructor argument / one slot per ENABLED variant, indexable by the enum
